@@ -5,6 +5,7 @@ package pppoe
 import (
 	"context"
 	"encoding/binary"
+	"fmt"
 	"net"
 	"sync"
 	"time"
@@ -494,6 +495,10 @@ func ParsePADT(data []byte) (sessionID uint16, tags []Tag, err error) {
 
 	if hdr.Code != CodePADT {
 		return 0, nil, nil
+	}
+
+	if 6+int(hdr.Length) > len(data) {
+		return 0, nil, fmt.Errorf("PADT payload length %d exceeds packet", hdr.Length)
 	}
 
 	if len(data) > 6 {
